@@ -9,6 +9,8 @@ for fn in sorted(os.listdir(d)) if os.path.isdir(d) else []:
     for f in frag.get("findings", []):
         if not any(g.get("key") == f.get("key") and g.get("property") == f.get("property") for g in main["findings"]):
             main["findings"].append(f)
+    for key in frag.get("retired", []):     # findings repaired since: drop them from the open list
+        main["findings"] = [g for g in main["findings"] if g.get("key") != key]
     for line in frag.get("fixed", []):
         for o, n in ren.items():
             line = line.replace(o, n)
